@@ -1,7 +1,7 @@
 (* Html/Proofs.v — the C09 / C01 / C02 theorems about the HTML lexer model, derived from the one-call
    specification next_spec (Html/Step.v). *)
 From Verif Require Import Common.Base Common.Tactics Common.Lx Gen.Tables Html.Model Html.Lemmas Html.ListLemmas
-     Html.Hash Html.Safety Html.Step.
+     Html.Hash Html.Safety Html.Step Html.Spec.
 From Coq Require Import ZifyBool.
 
 (* ---- the invariant relative to the original input d ---------------------------------------------------- *)
@@ -295,4 +295,134 @@ Proof.
     destruct (ty =? AttributeT) eqn:E2; [right; b2p; congruence|].
     cbn [orb] in Hb. destruct Hb as [Hb _]. congruence.
   - cbn [nth_error] in *. eapply IH; eauto.
+Qed.
+
+(* ---- C02: tiling -------------------------------------------------------------------------------------------------- *)
+Lemma slice_ext (x y : list Z) a b : 0 <= a <= b -> b <= len x -> b <= len y ->
+  (forall i, a <= i < b -> peekz x i = peekz y i) -> slice x a b = slice y a b.
+Proof.
+  intros Hab Hx Hy H. apply peekz_ext. intros i.
+  destruct (Z.lt_ge_cases i 0) as [Hn|Hn]; [rewrite !peekz_neg by lia; reflexivity|].
+  destruct (Z.lt_ge_cases i (b - a)) as [Hl|Hl].
+  - rewrite !peekz_slice by lia. apply H. lia.
+  - assert (Hnx : peekz (slice x a b) i = None) by (apply peekz_none_iff; rewrite len_slice by lia; lia).
+    assert (Hny : peekz (slice y a b) i = None) by (apply peekz_none_iff; rewrite len_slice by lia; lia).
+    congruence.
+Qed.
+
+(* tr is read from position p (the end of the previous token).  Up to the first ErrorToken every call returns a
+   non-empty token that starts at p — or after whitespace if it is the '>' or '/>' of a tag —, lies in the input,
+   ends at the reported offset, and whose bytes are the input bytes with exactly the view w lower-cased (which view,
+   by token type: low_rule).  If the first ErrorToken is the end-of-input report, all that is left is whitespace. *)
+Fixpoint tiles (d : list Z) (p : Z) (tr : list (Z * option sl * lexer)) : Prop :=
+  match tr with
+  | [] => True
+  | (ty, tk, l') :: rest =>
+      match tk with
+      | Some v =>
+          ty <> ErrorT /\ p <= so v /\ 0 < sn v /\ so v + sn v <= len d /\ lpos (lz l') = so v + sn v /\
+          (forall i, p <= i < so v -> is_ws (getz d i) = true) /\
+          (p < so v -> ty = StartTagCloseT \/ ty = StartTagVoidT) /\
+          (exists w, low_rule ty tk w l' /\ p <= so w /\ 0 <= sn w /\ so w + sn w <= so v + sn v /\
+                     view_bytes (lbuf (lz l')) v = view_bytes (lower_view (d ++ [0]) w) v) /\
+          tiles d (so v + sn v) rest
+      | None =>
+          ty = ErrorT /\
+          (lerr l' = false -> lpos (lz l') = len d /\ forall i, p <= i < len d -> is_ws (getz d i) = true)
+      end
+  end.
+
+Lemma ws_from_buf d l i c : html_inv d l -> lpos (lz l) <= i < len d -> peekz (lbuf (lz l)) i = Some c -> getz d i = c.
+Proof.
+  intros (_ & _ & Hsuf & _) Hi Hp. rewrite Hsuf in Hp by lia.
+  assert (0 <= i) by (apply peekz_some in Hp; lia).
+  rewrite peekz_app_l in Hp by lia. unfold getz. rewrite Hp. reflexivity.
+Qed.
+
+Lemma chain_tiles d tr : forall l, html_inv d l -> lstart (lz l) = lpos (lz l) -> chain l tr -> tiles d (lpos (lz l)) tr.
+Proof.
+  induction tr as [|r rest IH]; intros l Hi Hcl Hch; [exact I|].
+  cbn [chain] in Hch. destruct Hch as [Hs Hch]. destruct r as [[ty tk] l']. cbn [snd] in Hch. cbn [tiles].
+  pose proof (html_inv_step d l ty tk l' Hi Hs) as Hi'.
+  pose proof Hi as ((Hw & _) & Hlen & Hsuf & _).
+  pose proof (lx_wf_len _ Hw) as [Hbl _]. assert (H0 : 0 <= lpos (lz l)) by (destruct Hw as (_ & ? & _); lia).
+  cbn [step_post] in Hs. destruct Hs as (_ & _ & (w & Hb & W1 & W2 & W3 & Wr) & Hpos & Htk & _ & _ & _ & _ & He2).
+  rewrite Hlen in *.
+  destruct tk as [v|].
+  - destruct Htk as (T0 & T1 & T2 & T3 & T4 & T5 & T6 & _).
+    split; [exact T0|]. split; [exact T1|]. split; [exact T2|]. split; [lia|]. split; [lia|].
+    split.
+    { intros i Hr. destruct (T5 i Hr) as (c & Hc & Hws). rewrite (ws_from_buf d l i c Hi); [exact Hws|lia|exact Hc]. }
+    split; [exact T6|].
+    split.
+    { exists w. split; [exact Wr|]. split; [exact W1|]. split; [exact W2|]. split; [lia|].
+      unfold view_bytes. rewrite Hb. apply slice_ext; [lia| | |].
+      - rewrite len_lower_view by lia. lia.
+      - rewrite len_lower_view by (rewrite ?len_app; change (len [0]) with 1; lia). rewrite len_app. change (len [0]) with 1. lia.
+      - intros i Hr. rewrite !peekz_lower_view by (rewrite ?len_app; change (len [0]) with 1; lia).
+        rewrite Hsuf by lia. reflexivity. }
+    rewrite T3. apply IH; [exact Hi'|exact T4|exact Hch].
+  - destruct Htk as [-> Htk]. split; [reflexivity|]. intros Hle.
+    destruct Htk as [[Hend Hgap]|[Htrue _]]; [|congruence].
+    split; [exact Hend|]. intros i Hr. destruct (Hgap i ltac:(lia)) as (c & Hc & Hws).
+    rewrite (ws_from_buf d l i c Hi); [exact Hws|lia|exact Hc].
+Qed.
+
+Lemma html_tiling_proof : forall c d n tr, cfg_ok c -> run c n (new_lexer d) = Ok tr -> tiles d 0 tr.
+Proof.
+  intros c d n tr Hc Hr. destruct (run_inv_chain c n _ tr Hc (new_lexer_lwf d) Hr) as [_ Hch].
+  exact (chain_tiles d tr (new_lexer d) (html_inv_init d) eq_refl Hch).
+Qed.
+
+(* the token bytes equal the input bytes up to ASCII case, whatever w is *)
+Lemma lower_view_ci buf w : 0 <= so w -> 0 <= sn w -> so w + sn w <= len buf ->
+  map lower (lower_view buf w) = map lower buf.
+Proof.
+  intros H1 H2 H3. apply peekz_ext. intros i. rewrite !peekz_map, peekz_lower_view by lia.
+  destruct ((so w <=? i) && (i <? so w + sn w)); [apply option_map_lower_idem|reflexivity].
+Qed.
+
+(* ---- C02 refuted: "only tag and attribute names are altered" --------------------------------------------------- *)
+(* "</a X=Y>": the whole end tag is lower-cased, including the Y after '=' *)
+Lemma html_endtag_case_refuted_proof :
+  exists d v l' i, next no_tmpl (new_lexer d) = Ok (EndTagT, Some v, l') /\
+    so v <= i < so v + sn v /\ getz d (i - 1) = 61 /\          (* byte i follows an '=': it is (part of) a value *)
+    getz (lbuf (lz l')) i <> getz d i /\
+    view_bytes (lbuf (lz l')) v = [60; 47; 97; 32; 120; 61; 121; 62].
+Proof.
+  exists [60; 47; 97; 32; 88; 61; 89; 62]. eexists. eexists. exists 6.
+  split; [vm_compute; reflexivity|]. cbn [so sn]. split; [lia|]. split; [reflexivity|].
+  split; [vm_compute; discriminate|vm_compute; reflexivity].
+Qed.
+
+(* ---- C09 refuted: template regions inside comments, doctype, end tags, svg, math ---------------------------------- *)
+Definition go_tmpl : cfg := mkCfg [123; 123] [125; 125].
+
+(* the first token of d has type ty, contains the start of the region [p,q) and reports HasTemplate() = false *)
+Definition region_unreported (c : cfg) (ty : Z) (d : list Z) (p q : Z) : Prop :=
+  is_region c d p q /\ exists v l', next c (new_lexer d) = Ok (ty, Some v, l') /\ so v <= p < so v + sn v /\ lhas l' = false.
+
+(* the first token of d has type ty and ends strictly inside the region [p,q) *)
+Definition region_split (c : cfg) (ty : Z) (d : list Z) (p q : Z) : Prop :=
+  is_region c d p q /\ exists v l', next c (new_lexer d) = Ok (ty, Some v, l') /\ so v <= p /\ p < so v + sn v < q.
+
+Ltac region_witness := split; [split; [lia|split; [discriminate|split; vm_compute; reflexivity]]|
+                               eexists; eexists; split; [vm_compute; reflexivity|cbn [so sn]; repeat split; lia || reflexivity]].
+
+Lemma html_template_elsewhere_refuted_proof :
+  (* <!-- {{x}} -->             one Comment, HasTemplate() = false *)
+  region_unreported go_tmpl CommentT [60;33;45;45;32;123;123;120;125;125;32;45;45;62] 5 10 /\
+  (* <!-- {{ "-->" }} -->a      the comment ends inside the region *)
+  region_split go_tmpl CommentT [60;33;45;45;32;123;123;32;34;45;45;62;34;32;125;125;32;45;45;62;97] 5 16 /\
+  (* <!doctype {{">"}}>         the doctype ends inside the region *)
+  region_split go_tmpl DoctypeT [60;33;100;111;99;116;121;112;101;32;123;123;34;62;34;125;125;62] 10 17 /\
+  (* </a{{x}}>                  EndTag, HasTemplate() = false *)
+  region_unreported go_tmpl EndTagT [60;47;97;123;123;120;125;125;62] 3 8 /\
+  (* <svg>{{"</svg>"}}</svg>    SVG, HasTemplate() = false *)
+  region_unreported go_tmpl SvgT [60;115;118;103;62;123;123;34;60;47;115;118;103;62;34;125;125;60;47;115;118;103;62] 5 17 /\
+  (* <math>{{x}}</math>         Math, HasTemplate() = false *)
+  region_unreported go_tmpl MathT [60;109;97;116;104;62;123;123;120;125;125;60;47;109;97;116;104;62] 6 11.
+Proof.
+  split; [region_witness|]. split; [region_witness|]. split; [region_witness|].
+  split; [region_witness|]. split; [region_witness|region_witness].
 Qed.
